@@ -215,7 +215,8 @@ class Dx:
         c = CH(e, k1)
         return [self.RUN(e, k, inc) == z3.If(k <= 0, lit(""), cc(self.RUN(e, k1, inc), self.run_item(c, inc))),
                 z3.Implies(TEXT_NONE(c), TEXT(c) == lit("")),
-                z3.Implies(is_brk(TAG(c)), NCH(c) == 0)]          # OOXML-SCHEMA: w:tab / w:br / w:cr are empty elements
+                z3.Implies(is_brk(TAG(c)), NCH(c) == 0)           # OOXML-SCHEMA: w:tab / w:br / w:cr are empty elements
+                ] + self._f(c, inc) + self._kids(c, NCH(c), inc)  # (definition instances at the child, so that dx(empty element) == "")
 
 
 DXN = Dx("nw", NW, "", "")
